@@ -436,6 +436,11 @@ func RunDetPure(c *core.Ctx) {
 					continue
 				}
 			}
+			// the main package is the process boundary: it reads the request from os.Stdin, as protogen does; its use of
+			// the command line is followed value by value (argsFlow) instead of being banned outright
+			if rel == "cmd/protoc-gen-go-pulsar" && (q == "os.Stdin" || q == "os.Args") {
+				continue
+			}
 			if why, ok := bannedCalls[q]; ok {
 				bad++
 				c.Fail("T.pure", fmt.Sprintf("%s references %s", rel, q), "generator code references a "+why+"-dependent function; the response would not be a pure function of the request", c.PosStr(p.Fset, id.Pos()), src)
@@ -449,6 +454,9 @@ func RunDetPure(c *core.Ctx) {
 			if why, ok := bannedPkgs[imp.Path()]; ok {
 				c.Fail("T.pure", rel+" imports "+imp.Path(), "generator package imports "+imp.Path()+" ("+why+")", "", src)
 			}
+		}
+		if rel == "cmd/protoc-gen-go-pulsar" {
+			runArgsFlow(c, p, rel, src)
 		}
 		c.Ok("T.pure", rel+" banned-reference scan", fmt.Sprintf("%d identifier uses resolved, %d banned", len(info.Uses), bad), "", src)
 		// --- package-level variable writes outside init / registration
@@ -1043,6 +1051,10 @@ func RunFlow(c *core.Ctx) {
 									errID, _ := t.Lhs[len(t.Lhs)-1].(*ast.Ident)
 									okE := false
 									if errID != nil && errID.Name != "_" && i+1 < len(list) {
+										// handed to the caller as it is: `…, err = f(); return …, err`
+										if rs, ok := list[i+1].(*ast.ReturnStmt); ok && len(rs.Results) >= 1 && types.ExprString(rs.Results[len(rs.Results)-1]) == errID.Name {
+											okE = true
+										}
 										if is, ok := list[i+1].(*ast.IfStmt); ok {
 											if be, ok := is.Cond.(*ast.BinaryExpr); ok && be.Op == token.NEQ && types.ExprString(be.X) == errID.Name && types.ExprString(be.Y) == "nil" && len(is.Body.List) >= 1 {
 												if rs, ok := is.Body.List[len(is.Body.List)-1].(*ast.ReturnStmt); ok && len(rs.Results) >= 1 && types.ExprString(rs.Results[len(rs.Results)-1]) == errID.Name {
